@@ -776,7 +776,7 @@ fn eval_big_case(ctx: &mut Ctx, case: &StaticCase, rng: &mut Rng, only: Option<(
         }
         let cost = crate::props::static_eval::exp_cost_built(built);
         for enc in ENCODERS {
-            if enc == Enc::ExpCo && cost > crate::props::static_eval::EXP_COST_LIMIT {
+            if enc == Enc::ExpCo && cost > crate::props::static_eval::EXP_COST_LIMIT && case.family != "huge-product" {
                 ctx.count("skipped/exp-encoder-clause-explosion");
                 continue;
             }
@@ -893,11 +893,77 @@ pub fn run(ctx: &mut Ctx) {
         }
         let mut rng = Rng::from_path(&[ctx.seed, 10, 0xb16, i]);
         let lim = GenLimits { er_max: 7, big_min: 65, big_max: 140 };
-        let fam = *rng.pick(&["big-conn", "big-conn", "big-union"]);
-        let mut case = gen_case(fam, i, ctx.seed, &lim);
+        let fam = *rng.pick(&["big-conn", "big-conn", "big-union", "big-conn", "big-union", "fan-in"]);
+        let mut case = if fam == "fan-in" {
+            // two or three arguments with 31-40 attackers each (some of the attackers attacked in turn, most
+            // not), in a framework of 68-120 arguments with a few more random attacks
+            let n = rng.range(68, 120);
+            let mut att: Vec<(usize, usize)> = Vec::new();
+            for _ in 0..rng.range(2, 3) {
+                let t = rng.below(n);
+                let k = *rng.pick(&[31usize, 32, 33, 36, 40]);
+                let mut picked: Vec<usize> = Vec::new();
+                while picked.len() < k {
+                    let a = rng.below(n);
+                    if a != t && !picked.contains(&a) {
+                        picked.push(a);
+                    }
+                }
+                for a in picked.iter() {
+                    att.push((*a, t));
+                    if rng.pct(12) {
+                        att.push((rng.below(n), *a));
+                    }
+                }
+            }
+            for _ in 0..rng.range(0, 25) {
+                att.push((rng.below(n), rng.below(n)));
+            }
+            att.sort();
+            att.dedup();
+            rng.shuffle(&mut att);
+            StaticCase { family: "fan-in".to_string(), abs: Abs::new(n, att), pres: Pres::Iccma { text: String::new() } }
+        } else {
+            gen_case(fam, i, ctx.seed, &lim)
+        };
         let kind = *rng.pick(&["iccma", "iccma-dup", "apx", "nwl-u", "nwl-s"]);
         case.pres = crate::present::present(&case.abs, kind, &mut rng);
         ctx.case_begin(&json!({"family": fam, "i": i, "big": true}));
+        crate::report::guarded(ctx, |ctx| eval_big_case(ctx, &case, &mut rng, None));
+    }
+    // defender-set products of 2^16 and beyond (65 536 ... 262 144 product clauses from the exp encoder): one
+    // argument, k attackers, each attacked by the same d mutually attacking defenders
+    let shapes: [(usize, usize); 5] = [(16, 2), (17, 2), (11, 3), (9, 4), (8, 5)];
+    for (k, (attackers, defenders)) in shapes.iter().enumerate() {
+        if !ctx.mine(k as u64 * 5 + 2) {
+            continue;
+        }
+        if ctx.out_of_time() {
+            return;
+        }
+        let mut rng = Rng::from_path(&[ctx.seed, 10, 0x9d0d, k as u64]);
+        let n = 1 + attackers + defenders;
+        let mut att: Vec<(usize, usize)> = Vec::new();
+        for b in 0..*attackers {
+            att.push((1 + b, 0));
+            for d in 0..*defenders {
+                att.push((1 + attackers + d, 1 + b));
+            }
+        }
+        for d in 0..*defenders {
+            for e in 0..*defenders {
+                if d != e {
+                    att.push((1 + attackers + d, 1 + attackers + e));
+                }
+            }
+        }
+        rng.shuffle(&mut att);
+        let abs = Abs::new(n, att);
+        let kind = *rng.pick(&["iccma", "apx", "nwl-u"]);
+        let pres: Pres = crate::present::present(&abs, kind, &mut rng);
+        let case = StaticCase { family: "huge-product".to_string(), abs, pres };
+        ctx.case_begin(&json!({"family": "huge-product", "attackers": attackers, "defenders": defenders}));
+        ctx.count("cases/defender-set-product-of-2^16-or-more");
         crate::report::guarded(ctx, |ctx| eval_big_case(ctx, &case, &mut rng, None));
     }
     // declared sizes at and beyond 2^16 (almost all arguments isolated, attacks among the first ids, the
